@@ -26,6 +26,12 @@ fn main() {
             dump::dump();
             return;
         }
+        Some("opt") => {
+            // dmh opt <modes> <maskhex> <written> <datahex>: one planner case with its sort permutations
+            let d = if args[5] == "-" { vec![] } else { util::unhex(&args[5]) };
+            let (line, _, _) = gen_enc::planner_line(args[2].parse().unwrap(), u64::from_str_radix(&args[3], 16).unwrap(), args[4].parse().unwrap(), &d);
+            writeln!(out, "{}", line).unwrap();
+        }
         Some("ddata") => {
             writeln!(out, "{}", gen_dec::ddata(&util::unhex(&args[2]))).unwrap();
         }
